@@ -16,6 +16,6 @@ git diff --stat | tail -1
 echo "== demo with change"; /venv/bin/python -m pytest -q -p no:cacheprovider -p no:warnings demo_test_${id}_${m}.py 2>&1 | tail -1
 rm -f demo_test_${id}_${m}.py
 echo "== full suite with change"; /venv/bin/python -m pytest -q -p no:cacheprovider -p no:warnings --timeout=900 --continue-on-collection-errors -rf 2>&1 | grep -E "^FAILED|passed|failed" | sed 's/ - .*//' | sort > _suite.txt; tail -1 _suite.txt; grep -c '^FAILED' _suite.txt
-grep '^FAILED' _suite.txt | sort > _f.txt; grep '^FAILED' /tmp/baseline_failed.txt | sed 's/ - .*//' | sort > _b.txt; if diff -q _f.txt _b.txt >/dev/null; then echo "failing set: identical to baseline"; else echo "failing set: DIFFERS"; diff _f.txt _b.txt | head -5; fi
+grep '^FAILED' _suite.txt | sort > _f.txt; grep '^FAILED' /verif/tools/baseline_failed.txt | sed 's/ - .*//' | sort > _b.txt; if diff -q _f.txt _b.txt >/dev/null; then echo "failing set: identical to baseline"; else echo "failing set: DIFFERS"; diff _f.txt _b.txt | head -5; fi
 } > $out 2>&1
 cd /; git -C /repo worktree remove --force $wt
